@@ -43,6 +43,7 @@ import Proofs.C04Collapse
 import Proofs.C04Sound
 import Proofs.Constraint
 import Generated.Cons
+import Generated.Earley
 namespace FV
 open Earley
 
@@ -107,7 +108,7 @@ theorem C04_chart_invariant_step (c : Cfg) (hs : SaneS c) (m : M) (hi : Inv c m)
 /-- the table `IterativeParser._process` compiles from ANY grammar has the shape the invariant needs (in
     particular what `place_repetition_shortcut` silently relies on: the loop nonterminal of `*` / `+` occurs
     only as the head of its beginner and as the last symbol of its one recursive rule) -/
-theorem C04_compiled_table_sane (c : Cfg) (G : Grammar) (cap : Nat) (hr : c.rules = compile G cap)
+theorem C04_compiled_table_sane (c : Cfg) (G : Grammar) (cap : Option Nat) (hr : c.rules = compile G cap)
     (hpred : ∀ k x rhs, rhs ∈ c.pred k x → (x, rhs) ∈ compile G cap) : SaneS c :=
   saneS_of_rules c G cap hr hpred
 
@@ -200,50 +201,77 @@ theorem C04_api_outside_constrained_language_yields_nothing (cs : List Cons) (fo
 
 /-- **helper collapsing preserves derivations**: a derivation of a rule of the start symbol over the helper
     rules (`<__…>` spliced, `<*…*>` never a node) collapses to a valid derivation tree of the IR grammar —
-    alternatives, concatenations, `*`, `+`, `?`, `{n,m}`, `{n,}` (capped) -/
-theorem C04_collapse_preserves_derivations (G : Grammar) (cap : Nat) (R : RegexOracle) (scan : Scan)
+    alternatives, concatenations, `*`, `+`, `?`, `{n,m}`, and `{n,}` both as the code compiles it now (`cap = none`:
+    n iterations + right-recursive tail, no upper bound) and as it did before b48dd899 (`cap = some c`) -/
+theorem C04_collapse_preserves_derivations (G : Grammar) (cap : Option Nat) (R : RegexOracle) (scan : Scan)
     (start : String) (hwf : G.wf = true) (hscan : ScanOk G cap R scan) {rhs : List ESym} {kids : List PT}
     {i j : Nat} (hr : (NT.user start, rhs) ∈ compile G cap)
     (h : DerL (tableOf G cap start) scan rhs kids i j) :
     Valid G R (Tree.mk (.nt start) none none (collapseL kids)) :=
   collapse_top_valid G cap R scan start hwf hscan hr h
 
-/-- **the model parser is sound** (the scanner as the code has it): every tree of a complete parse is a valid
-    derivation rooted at the requested start symbol, holds no helper symbol, and its leaves tile the input:
-    leaf after leaf, each equal to what the input holds at its column, ending at the last column.
-    All grammars (well-formed bounds, literals of the input's type), inputs, start symbols, policies,
-    prediction orders, fuel. -/
-theorem C04_model_parse_sound (G : Grammar) (cap : Nat) (inp : Input) (start : String) (p : Policy)
+/-- **the model parser is sound, for every variant of the code** (`Variant`: admission policy, compilation of
+    `{n,}`, `predict` with or without the completion of finished empty derivations, scanner with or without the
+    three guards): every tree of a complete parse is a valid derivation rooted at the requested start symbol,
+    holds no helper symbol, and its leaves tile the input: leaf after leaf, each equal to what the input holds at
+    its column, ending at the last column.  All grammars (well-formed bounds, literals of the input's type),
+    inputs, start symbols, prediction orders, fuel. -/
+theorem C04_model_parse_sound (G : Grammar) (v : Variant) (inp : Input) (start : String)
     (pred : Nat → NT → List (List ESym)) (R : RegexOracle)
-    (hpred : ∀ k x rhs, rhs ∈ pred k x → (x, rhs) ∈ compile G cap)
+    (hpred : ∀ k x rhs, rhs ∈ pred k x → (x, rhs) ∈ compile G v.cap)
     (hwf : G.wf = true) (hty : G.typed inp.isBytes = true) (ho : OracleOk inp R) (hc : CellsOk inp)
     (hG : ∀ q ∈ G.rules, isHelperName q.1 = false)
     (fuel : Nat) (ts : List Tree)
-    (h : parseComplete (mkCfg G cap inp start p pred) fuel = some (.ok ts)) :
+    (h : parseComplete (mkCfg G v inp start pred) fuel = some (.ok ts)) :
     ∀ t ∈ ts, Valid G R t ∧ t.sym = .nt start ∧ noHelper t = true ∧
       TilesLoose inp t.leaves 0 (8 * inp.cells.length) := by
   intro t ht
-  have := parse_sound_of_scan G cap inp start p pred (scanImpl inp) R (fun _ _ => True) hpred hwf hty
-    (fun t hp k m l hs => scanImpl_ok inp R ho hc hp hs) fuel ts h t ht
+  have := parse_sound_of_scan G v inp start pred (scanV v inp) R hpred hwf hty
+    (fun t hp k m l hs => by
+      have := scanV_ok v inp R ho hc hp hs
+      exact ⟨this.1, this.2.1, this.2.2.1⟩) fuel ts h t ht
   exact ⟨this.1, this.2.1, C04_valid_tree_has_no_helper G R hG t this.1, this.2.2⟩
 
-/-- the same parser with the missing guard in the scanner (`scanAligned`: a text / bytes / regex terminal is
-    only tried on a cell boundary): additionally every payload leaf starts on a cell boundary -/
-theorem C04_model_parse_sound_aligned (G : Grammar) (cap : Nat) (inp : Input) (start : String) (p : Policy)
-    (pred : Nat → NT → List (List ESym)) (R : RegexOracle)
-    (hpred : ∀ k x rhs, rhs ∈ pred k x → (x, rhs) ∈ compile G cap)
+/-- a variant whose scanner has the alignment guard of `_consume` (a33087ac): additionally every payload leaf
+    starts on a cell boundary -/
+theorem C04_model_parse_sound_aligned (G : Grammar) (v : Variant) (hal : v.aligned = true) (inp : Input)
+    (start : String) (pred : Nat → NT → List (List ESym)) (R : RegexOracle)
+    (hpred : ∀ k x rhs, rhs ∈ pred k x → (x, rhs) ∈ compile G v.cap)
     (hwf : G.wf = true) (hty : G.typed inp.isBytes = true) (ho : OracleOk inp R) (hc : CellsOk inp)
+    (hG : ∀ q ∈ G.rules, isHelperName q.1 = false)
     (fuel : Nat) (ts : List Tree)
-    (h : parseComplete (withScan (mkCfg G cap inp start p pred) (scanAligned inp)) fuel = some (.ok ts)) :
-    ∀ t ∈ ts, Valid G R t ∧ t.sym = .nt start ∧ Tiles inp t.leaves 0 (8 * inp.cells.length) := by
+    (h : parseComplete (mkCfg G v inp start pred) fuel = some (.ok ts)) :
+    ∀ t ∈ ts, Valid G R t ∧ t.sym = .nt start ∧ noHelper t = true ∧
+      Tiles inp t.leaves 0 (8 * inp.cells.length) := by
   intro t ht
-  have h1 := parse_sound_of_scan G cap inp start p pred (scanAligned inp) R (fun _ _ => True) hpred hwf hty
+  have h1 := C04_model_parse_sound G v inp start pred R hpred hwf hty ho hc hG fuel ts h t ht
+  have h2 := parse_sound_of_aligned_scan G v inp start pred (scanV v inp) hpred hty
     (fun t hp k m l hs => by
-      have := scanAligned_ok inp R ho hc hp hs
-      exact ⟨this.1, this.2.1, this.2.2.1⟩) fuel ts h t ht
-  have h2 := parse_sound_of_aligned_scan G cap inp start p pred (scanAligned inp) R hpred hty
-    (fun t hp k m l hs => (scanAligned_ok inp R ho hc hp hs).2) fuel ts h t ht
-  exact ⟨h1.1, h1.2.1, h2⟩
+      have := scanV_ok v inp R ho hc hp hs
+      exact ⟨this.2.1, this.2.2.1, this.2.2.2.1 hal⟩) fuel ts h t ht
+  exact ⟨h1.1, h1.2.1, h1.2.2.1, h2⟩
+
+/-- the variant the translator reads from the source NOW has the alignment guard (`decide` on the generated
+    definition: it fails, and with it the obligation, the day the guard leaves the source) -/
+theorem C04_generated_variant_aligned :
+    (match Earley.Gen.variant with | some v => v.aligned | none => false) = true := by decide
+
+/-- **the parser as the source has it now is sound** — stated for `Generated/Earley.lean`'s variant: clauses (1),
+    (3) and the column-level form of (2) with aligned payload leaves -/
+theorem C04_generated_parser_sound (G : Grammar) (v : Variant) (hv : Earley.Gen.variant = some v) (inp : Input)
+    (start : String) (pred : Nat → NT → List (List ESym)) (R : RegexOracle)
+    (hpred : ∀ k x rhs, rhs ∈ pred k x → (x, rhs) ∈ compile G v.cap)
+    (hwf : G.wf = true) (hty : G.typed inp.isBytes = true) (ho : OracleOk inp R) (hc : CellsOk inp)
+    (hG : ∀ q ∈ G.rules, isHelperName q.1 = false)
+    (fuel : Nat) (ts : List Tree)
+    (h : parseComplete (mkCfg G v inp start pred) fuel = some (.ok ts)) :
+    ∀ t ∈ ts, Valid G R t ∧ t.sym = .nt start ∧ noHelper t = true ∧
+      Tiles inp t.leaves 0 (8 * inp.cells.length) := by
+  have hal : v.aligned = true := by
+    have := C04_generated_variant_aligned
+    rw [hv] at this
+    exact this
+  exact C04_model_parse_sound_aligned G v hal inp start pred R hpred hwf hty ho hc hG fuel ts h
 
 /-- … and for a tree without bit leaves the tiling IS "serialisation = input": the payloads of the leaves,
     concatenated, are the cells of the input -/
@@ -255,12 +283,17 @@ theorem C04_aligned_payload_tree_spells_input (inp : Input) (t : Tree)
 /-- the full clause (2), not proved in this generality (trees mixing bit and payload leaves): the value of a
     yielded tree is the input.  `C04_model_parse_sound_aligned` is its column-level form; the harness compares
     the real serialisations (`str(tree)`, `bytes(tree)`, `to_bits()`) with the input on every yielded tree. -/
-def FullSerialisation (G : Grammar) (cap : Nat) (inp : Input) (start : String) (p : Policy)
+def FullSerialisation (G : Grammar) (v : Variant) (inp : Input) (start : String)
     (pred : Nat → NT → List (List ESym)) (fuel : Nat) : Prop :=
-  ∀ ts, parseComplete (withScan (mkCfg G cap inp start p pred) (scanAligned inp)) fuel = some (.ok ts) →
+  v.aligned = true → v.wideGuard = true →
+  ∀ ts, parseComplete (mkCfg G v inp start pred) fuel = some (.ok ts) →
     ∀ t ∈ ts, (t.value.bind TV.toBits) = .ok (inp.cells.flatMap (fun c => byteBits (mkByte c)))
 
-/-! ## 5. the scanner as it is: clause (2) is false off the byte boundary -/
+/-! ## 5. OLD: the scanner before a33087ac — clause (2) was false off the byte boundary
+
+These two theorems are about `Variant.old` (the code before the repairs) and are kept as the machine-checked record
+of finding F36; on the same input the parser as it is now (`Variant.now`) yields nothing.  The harness replays
+the witness on the implementation on every run and expects no tree. -/
 
 def wG : Grammar := ⟨[("<start>", .cat "c" [.nt "<b>" none none, .nt "<b>" none none, .nt "<b>" none none,
     .nt "<b>" none none, .term (.lit (.bytes [mkByte 97])), .nt "<b>" none none, .nt "<b>" none none,
@@ -268,45 +301,61 @@ def wG : Grammar := ⟨[("<start>", .cat "c" [.nt "<b>" none none, .nt "<b>" non
   ("<b>", .alt "a" [.term (.lit (.bit false)), .term (.lit (.bit true))])]⟩
 def wInp : Input := { isBytes := true, cells := [97, 31], rlen := fun _ _ => none }
 
-/-- the scanner as it is accepts the bytes literal `b"a"` at column 4 of `b"a\x1f"` (it compares with the
-    whole cell 0), 8 columns wide: the columns 4 … 11 of the input hold `0001 0001`, not `a` -/
-theorem C04_unaligned_scan_accepts_payload :
-    scanImpl wInp (.lit (.bytes [mkByte 97])) 4 = some (12, .bytes [mkByte 97]) ∧
-    scanAligned wInp (.lit (.bytes [mkByte 97])) 4 = none := by decide
+/-- OLD scanner: the bytes literal `b"a"` is accepted at column 4 of `b"a\x1f"` (compared with the whole cell 0),
+    8 columns wide, although the columns 4 … 11 hold `0001 0001`; the scanner as it is now refuses -/
+theorem C04_old_unaligned_scan_accepts_payload :
+    scanV (Variant.old 20) wInp (.lit (.bytes [mkByte 97])) 4 = some (12, .bytes [mkByte 97]) ∧
+    scanImpl wInp (.lit (.bytes [mkByte 97])) 4 = none := by decide
 
-/-- **clause (2) is false of the parser as it is**: `<start> ::= <b><b><b><b> b"a" <b><b><b><b>` on
-    `b"a\x1f"` yields the tree with leaves `0 1 1 0 b"a" 1 1 1 1`, whose payload leaf sits at column 4 — it
-    has no serialisation (C09: misaligned bytes raise), let alone the input.  With the guard nothing is yielded.
-    Replayed on the implementation by harness/props/c04.py on every run. -/
-theorem C04_unaligned_scan_unsound :
-    (match parseComplete (mkCfg wG 20 wInp "<start>" .impl (predDefault wG 20)) 600 with
+/-- OLD parser: `<start> ::= <b><b><b><b> b"a" <b><b><b><b>` on `b"a\x1f"` yielded the tree with leaves
+    `0 1 1 0 b"a" 1 1 1 1`, whose payload leaf sits at column 4 — it has no serialisation (C09: misaligned bytes
+    raise), let alone the input.  The parser as it is now yields nothing. -/
+theorem C04_old_unaligned_scan_unsound :
+    (match parseComplete (mkCfg wG (Variant.old 20) wInp "<start>" (predDefault wG (some 20))) 600 with
      | some (.ok ts) => ts.map (fun t => t.leaves)
      | _ => []) =
       [[.bit false, .bit true, .bit true, .bit false, .bytes [mkByte 97], .bit true, .bit true, .bit true, .bit true]]
-    ∧ (match parseComplete (withScan (mkCfg wG 20 wInp "<start>" .impl (predDefault wG 20)) (scanAligned wInp)) 600 with
+    ∧ (match parseComplete (mkCfg wG Variant.now wInp "<start>" (predDefault wG none)) 600 with
        | some (.ok ts) => ts.length
        | _ => 1) = 0 := by decide +kernel
 
-/-- non-vacuity of `C04_model_parse_sound`: the witness grammar meets its hypotheses, and the parse returns -/
+/-- non-vacuity of `C04_model_parse_sound`: the witness grammar meets its hypotheses, and a parse of the current
+    variant returns a tree (`<b>{8}`-like grammar on one byte) -/
 example : wG.wf = true ∧ wG.typed wInp.isBytes = true ∧ (∀ q ∈ wG.rules, isHelperName q.1 = false) := by decide +kernel
 
 /-! ## 6. the API on top of the parser -/
 
-/-- **`Fandango.parse` is sound**: a yielded tree is a valid derivation from the start symbol whose leaves tile
-    the input, without helper symbols, and satisfies every constraint -/
-theorem C04_api_parse_sound (G : Grammar) (cap : Nat) (inp : Input) (start : String) (p : Policy)
+/-- **`Fandango.parse` is sound** (every variant): a yielded tree is a valid derivation from the start symbol whose
+    leaves tile the input, without helper symbols, and satisfies every constraint -/
+theorem C04_api_parse_sound (G : Grammar) (v : Variant) (inp : Input) (start : String)
     (pred : Nat → NT → List (List ESym)) (R : RegexOracle) (cs : List Cons)
-    (hpred : ∀ k x rhs, rhs ∈ pred k x → (x, rhs) ∈ compile G cap)
+    (hpred : ∀ k x rhs, rhs ∈ pred k x → (x, rhs) ∈ compile G v.cap)
     (hwf : G.wf = true) (hty : G.typed inp.isBytes = true) (ho : OracleOk inp R) (hc : CellsOk inp)
     (hG : ∀ q ∈ G.rules, isHelperName q.1 = false)
     (fuel : Nat) (forest : List Tree)
-    (h : parseComplete (mkCfg G cap inp start p pred) fuel = some (.ok forest)) :
+    (h : parseComplete (mkCfg G v inp start pred) fuel = some (.ok forest)) :
     ∀ t ∈ (apiParse Generated.consCfg cs forest).1,
       Valid G R t ∧ t.sym = .nt start ∧ noHelper t = true ∧ TilesLoose inp t.leaves 0 (8 * inp.cells.length) ∧
       ∀ c ∈ cs, denote c t [] [] = true := by
   intro t ht
   obtain ⟨hf, hd⟩ := C04_api_filter cs forest t ht
-  obtain ⟨h1, h2, h3, h4⟩ := C04_model_parse_sound G cap inp start p pred R hpred hwf hty ho hc hG fuel forest h t hf
+  obtain ⟨h1, h2, h3, h4⟩ := C04_model_parse_sound G v inp start pred R hpred hwf hty ho hc hG fuel forest h t hf
+  exact ⟨h1, h2, h3, h4, hd⟩
+
+/-- the same for the variant of the source as it is now, with aligned payload leaves -/
+theorem C04_api_generated_parser_sound (G : Grammar) (v : Variant) (hv : Earley.Gen.variant = some v) (inp : Input)
+    (start : String) (pred : Nat → NT → List (List ESym)) (R : RegexOracle) (cs : List Cons)
+    (hpred : ∀ k x rhs, rhs ∈ pred k x → (x, rhs) ∈ compile G v.cap)
+    (hwf : G.wf = true) (hty : G.typed inp.isBytes = true) (ho : OracleOk inp R) (hc : CellsOk inp)
+    (hG : ∀ q ∈ G.rules, isHelperName q.1 = false)
+    (fuel : Nat) (forest : List Tree)
+    (h : parseComplete (mkCfg G v inp start pred) fuel = some (.ok forest)) :
+    ∀ t ∈ (apiParse Generated.consCfg cs forest).1,
+      Valid G R t ∧ t.sym = .nt start ∧ noHelper t = true ∧ Tiles inp t.leaves 0 (8 * inp.cells.length) ∧
+      ∀ c ∈ cs, denote c t [] [] = true := by
+  intro t ht
+  obtain ⟨hf, hd⟩ := C04_api_filter cs forest t ht
+  obtain ⟨h1, h2, h3, h4⟩ := C04_generated_parser_sound G v hv inp start pred R hpred hwf hty ho hc hG fuel forest h t hf
   exact ⟨h1, h2, h3, h4, hd⟩
 
 end FV
